@@ -1,6 +1,6 @@
 //! C05: shifts and rotations (amount = aux).
 use refmodel::spec;
-use refmodel::ZNum;
+use refmodel::{Obs, ZNum};
 use vengine::{op, oph, opn, Aux, Op};
 use vengine::{ov, v, vf};
 
@@ -15,8 +15,8 @@ macro_rules! common {
             op!("overflowing_shr", 1, Aux::Shift, spec::overflowing_shr, |r, x| vf(r[0].overflowing_shr(x as u32))),
             oph!("strict_shl", 1, Aux::Shift, spec::strict_shl, |r, x| v(r[0].strict_shl(x as u32))),
             oph!("strict_shr", 1, Aux::Shift, spec::strict_shr, |r, x| v(r[0].strict_shr(x as u32))),
-            op!("unchecked_shl", 1, Aux::Shift, spec::unchecked_shl, |r, x| v(unsafe { r[0].unchecked_shl(x as u32) })),
-            op!("unchecked_shr", 1, Aux::Shift, spec::unchecked_shr, |r, x| v(unsafe { r[0].unchecked_shr(x as u32) })),
+            op!("unchecked_shl", 1, Aux::Shift, spec::unchecked_shl, |r, x| if r[0].checked_shl(x as u32).is_some() { v(unsafe { r[0].unchecked_shl(x as u32) }) } else { Obs::OV(None) }),
+            op!("unchecked_shr", 1, Aux::Shift, spec::unchecked_shr, |r, x| if r[0].checked_shr(x as u32).is_some() { v(unsafe { r[0].unchecked_shr(x as u32) }) } else { Obs::OV(None) }),
             op!("unbounded_shl", 1, Aux::Shift, spec::unbounded_shl, |r, x| v(r[0].unbounded_shl(x as u32))),
             op!("unbounded_shr", 1, Aux::Shift, spec::unbounded_shr, |r, x| v(r[0].unbounded_shr(x as u32))),
             // `<<` / `>>` and the const twins with a u32 amount; amounts >= BITS (debug panic) belong to C04
